@@ -346,3 +346,21 @@ package store
 //@   set rdbTakenOff = 0 at call DelWriter
 //@   set rdbTakenOff = 1 at call forgetIncompleteRdb optional
 //@   ensures an_incomplete_snapshot_is_taken_off_the_index: len(args) == 3 && args[2] == dyn(true) ==> rdbTakenOff == 1
+
+// ---- closing a log segment closes every reader registered on it (C05) --------------------------
+// A reader's close observer takes itself off the segment's reader list IN PLACE (DelReader): the
+// list that is walked while closing must be a private copy, otherwise every second reader is
+// skipped and stays open on an unlinked file.
+//@ func AofRotateReader.Close(self) (err)
+//@   trusted runs the close observer (dataSetAof.DelReader) on the calling goroutine
+//@   modifies heap
+//@ func AofWriter.Close(self) (err)
+//@   trusted runs the close observer on the calling goroutine
+//@   modifies heap
+//@ func dataSetAof.Close
+//@   arith int
+//@   properties C05
+//@   replay store_resetSkipsReader
+//@   requires nonnil: a != nil
+//@   modifies heap
+//@   assert after store readers: the_readers_are_closed_from_a_private_copy_of_the_list: len(readers) == 0 || fresh(readers)
